@@ -332,5 +332,5 @@ MANIFEST = {
                   'every path of an exhaustively explored decision tree. Universal inside the bounds, silent outside them.',
     'level_note': 'Exact real arithmetic stands in for IEEE doubles; scipy multivariate normal density is an uninterpreted '
                   'function; RNG draws are arbitrary values of the documented range; sizes n<=4 (quick) / n<=5..6 (thorough), '
-                  'mixture k<=3, d<=2, rvs <=3 retry trials; z3 is trusted.',
+                  'mixture k<=3, d<=2, rvs <=3 retry trials; z3 is trusted. One bit-precise probe (QF_FP query on cvc5/z3 for doubles whose normalised cumulative sum rounds below/above 1) exercises the quantile\'s float guard: a witness search, not a universal claim.',
 }
